@@ -1,5 +1,6 @@
 import Pamqp.Model.Frame
 import Pamqp.Model.Api
+import Pamqp.Spec.Wire
 import Pamqp.Generated.Catalogue
 /-!
 # Line-protocol driver (Tie B). One operation per input line, one answer per output line.
@@ -389,6 +390,27 @@ def step (st : Api.State) (line : String) : Api.State × String :=
       pure (st, match Frame.frameParts b with
         | (t, ch, some sz) => s!"ok {t} {ch} {sz}"
         | (t, ch, none) => s!"ok {t} {ch} None")
+    | "spec.encvalue" =>
+      let l ← pNat c; let v ← pVal c
+      pure (st, match Spec.encValue (l != 0) v with | some b => "ok " ++ hexOfBytes b | none => "none")
+    | "spec.parsevalue" =>
+      let b ← pBytes c
+      pure (st, match Spec.parseValue b with
+        | some (fv, rest) => (match fv.value with
+          | some v => s!"ok {b.length - rest.length} {showVal v}"
+          | none => "refused")
+        | none => "none")
+    | "spec.reencode" =>
+      let b ← pBytes c
+      pure (st, match Spec.parseValue b with
+        | some (fv, _) => "ok " ++ hexOfBytes fv.wire
+        | none => "none")
+    | "spec.args" =>
+      let l ← pNat c; let key ← pInt c; let vals ← pValsToEnd c #[]
+      match findSpec key with
+      | some spec => pure (st, match Spec.argsWire (l != 0) (vals.length + 1) (spec.types.zip vals) with
+          | some b => "ok " ++ hexOfBytes b | none => "none")
+      | none => throw "unknown method key"
     | "utf8.enc" =>
       let v ← pVal c
       match v with
